@@ -47,6 +47,14 @@ func (vc *VC) loopFreshOnly(li *loopInfo) map[string]bool {
 				if m.Top {
 					return nil
 				}
+				// result = append(result, ..) on a slice that is nil when the loop is entered: every array
+				// it writes is allocated inside the loop
+				if b, ok := x.Common().Value.(*ssa.Builtin); ok && b.Name() == "append" && grownInLoopFromNil(x.Common().Args[0], li, map[ssa.Value]bool{}) {
+					for l := range m.Locs {
+						fresh[l] = true
+					}
+					continue
+				}
 				// what a statically known callee changes only in objects it allocates itself is, seen
 				// from the loop, a write above the frontier of loop entry
 				var calleeFresh map[string]bool
@@ -69,6 +77,31 @@ func (vc *VC) loopFreshOnly(li *loopInfo) map[string]bool {
 		delete(fresh, l)
 	}
 	return fresh
+}
+
+// v can only be nil or an array allocated by an append inside the loop: nil, an append of such a
+// value inside the loop, or a header phi whose entry values are nil and whose other edges are such
+func grownInLoopFromNil(v ssa.Value, li *loopInfo, seen map[ssa.Value]bool) bool {
+	if seen[v] {
+		return true
+	}
+	seen[v] = true
+	switch x := v.(type) {
+	case *ssa.Const:
+		return x.IsNil()
+	case *ssa.Phi:
+		for _, e := range x.Edges {
+			if !grownInLoopFromNil(e, li, seen) {
+				return false
+			}
+		}
+		return true
+	case *ssa.Call:
+		if b, ok := x.Call.Value.(*ssa.Builtin); ok && b.Name() == "append" && li.body[x.Block()] {
+			return grownInLoopFromNil(x.Call.Args[0], li, seen)
+		}
+	}
+	return false
 }
 
 // root Alloc of an address expression: through field selections and array (not slice) indexing
